@@ -1784,7 +1784,9 @@ func TestVerifC17(t *testing.T) {
 	h.Close("one history of one PodMigrationJob (direct / reservation-first, TTL, preset ref/uid/annotations, fresh / mid-flight / terminal initial status) of 5-17 steps: " +
 		"Reconcile with a write-fault mask (job update, status update, reservation create/update/delete, evict; half of the histories fault-free) interleaved with environment events " +
 		"(reservation scheduled on another/the same node, unschedulable, expired, deleted, bound, odd states; pod deleted/replaced/pending; bound pod readiness; clock past TTL; pause; limiter; preemption script; controller restart with same/new uid), " +
-		"2/3 of the histories steered along the happy path; non-trivial = at least one reconcile issued a write; distinct by op lines")
+		"2/3 of the histories steered along the happy path; 1/4 of the jobs without a ReservationRef carry their OWN reservation template (allocateOnce nil/true/false, name, TTL, Expires, labels, pod template) and 1/8 of the cases are directed template histories " +
+		"(the controller creates the reservation, the scheduler - played faithfully: owner + Succeeded iff allocate-once - schedules it and lets a sibling pod consume it before / after the eviction); the Reservation WRITTEN by a creating reconcile is read back and observed; " +
+		"non-trivial = at least one reconcile issued a write; distinct by op lines")
 }
 
 // TestVerifC17Lag: the informer cache the controller reads the job from LAGS.  Every version of the job the controller
